@@ -412,16 +412,18 @@ Section Sizeof.
   Lemma repetition_never_over_quota Q k n sz c cs :
     0 < Q -> 0 <= n -> sizeof k n <= sz ->
     allocated (mul_eval (estimate sizeof) sizeof Q k n sz c cs) = true ->
-    mul_eval (estimate sizeof) sizeof Q k n sz c cs = MulOk (true_size sizeof k n c) /\
-    true_size sizeof k n c <= Q.
+    mul_eval (estimate sizeof) sizeof Q k n sz c cs = MulOk (product_size sizeof k n sz c) /\
+    product_size sizeof k n sz c <= Q.
   Proof.
     intros HQ Hn Hsz. unfold mul_eval.
-    destruct (limit_memory_usage Q [(1, sz)] || limit_memory_usage Q [(1, cs)]); [cbn; discriminate|].
+    destruct (limit_memory_usage Q [(1, sz)] || limit_memory_usage Q [(1, cs)]) eqn:Ea; [cbn; discriminate|].
     destruct (estimate sizeof Q k sz c) eqn:Ee; [cbn; discriminate|].
-    assert (Hle : true_size sizeof k n c <= Q).
-    { destruct (Z_le_gt_dec (true_size sizeof k n c) Q) as [H|H]; [exact H|].
-      rewrite (repetition_refuses_first Q k n sz c HQ Hn Hsz H) in Ee. discriminate. }
-    rewrite lmu_single. destruct ((0 <? Q) && (Q <? true_size sizeof k n c)) eqn:E; [lia|].
+    assert (Hle : product_size sizeof k n sz c <= Q).
+    { unfold product_size. destruct ((c =? 1) && negb (kind_eqb k KList)) eqn:E1.
+      - apply orb_false_iff in Ea as [Ea _]. rewrite lmu_single in Ea. lia.
+      - destruct (Z_le_gt_dec (true_size sizeof k n c) Q) as [H|H]; [exact H|].
+        rewrite (repetition_refuses_first Q k n sz c HQ Hn Hsz H) in Ee. discriminate. }
+    rewrite lmu_single. destruct ((0 <? Q) && (Q <? product_size sizeof k n sz c)) eqn:E; [lia|].
     intros _. split; [reflexivity|exact Hle].
   Qed.
 
